@@ -19,6 +19,8 @@ from harness.xmlobs import codes
 PID = "C20"
 ALPH = [" ", "\t", "\n", "\xa0", "a", "b"]
 # letters that Unicode normalisation forms, case mapping or width folding would change: a normaliser of SPACES keeps them
+# text whose CHARACTERS are markup characters (escaped in the source document): it stays text
+MARKUPISH = ["AT&T", "1<2", "x>y", "&amp;", "<b>x</b>", "&lt;i&gt;", "&#38;", "<!--c-->", "<?pi?>", "&", "<", "\"q'"]
 ODD = ["\u00b5g", "km\u00b2", "\ufb01eld", "\uff1cb\uff1e", "\uff06", "\uff02", "e\u0301", "\u212b", "\u2460", "\uff46", "\u0130", "\u00df", "\u01c6", "\u2026", "\u2122", "\u1e9b\u0323"]
 PROTECTED = ["markup", "literalLayout", "objectName", "attributeName", "para"]
 PLAIN = ["title", "abstract", "section", "value", "emphasis", "dataset", "entityName", "x", "html", "HTML", "br", "meta", "p", "head", "script"]
@@ -46,7 +48,7 @@ def rws(rnd, allow_empty=True):
 def rtext(rnd):
     parts = [rws(rnd)]
     for _ in range(rnd.randint(0, 4)):
-        parts.append("".join(rnd.choice("abcXYZ09.,") for _ in range(rnd.randint(1, 6))) if rnd.random() < 0.85 else rnd.choice(ODD))
+        parts.append("".join(rnd.choice("abcXYZ09.,") for _ in range(rnd.randint(1, 6))) if rnd.random() < 0.8 else rnd.choice(ODD + MARKUPISH))
         parts.append(rws(rnd, allow_empty=False))
     if rnd.random() < 0.5 and len(parts) > 1:
         parts[-1] = rws(rnd)
